@@ -98,6 +98,14 @@ def lexFieldPath (cap : Nat) (s : St) : Outcome St :=
   | .ok s1 => lexFieldPathTail cap s1.rest.length s1
   | e => e
 
+/-- the closing `}` of a variable. -/
+def lexClose (cap : Nat) (s3 : St) : Outcome St :=
+  match s3.rest with
+  | r3 :: rest3 =>
+    if r3.ch == cRBrace then emitOne cap .varEnd r3 s3 rest3
+    else fail cap s3.toks "unexpected"
+  | [] => fail cap s3.toks "unexpected"
+
 mutual
   /-- `lexSegment` -/
   def lexSegment (cap : Nat) : Nat → St → Outcome St
@@ -148,23 +156,17 @@ mutual
           | .ok s1 =>
             (match lexFieldPath cap s1 with
              | .ok s2 =>
-               let close (s3 : St) : Outcome St :=
-                 match s3.rest with
-                 | r3 :: rest3 =>
-                   if r3.ch == cRBrace then emitOne cap .varEnd r3 s3 rest3
-                   else fail cap s3.toks "unexpected"
-                 | [] => fail cap s3.toks "unexpected"
                (match s2.rest with
                 | r2 :: rest2 =>
                   if r2.ch == cEq then
                     (match emitOne cap .equal r2 s2 rest2 with
                      | .ok s3 =>
                        (match lexSegments cap fuel s3 with
-                        | .ok s4 => close s4
+                        | .ok s4 => lexClose cap s4
                         | e => e)
                      | e => e)
-                  else close s2
-                | [] => close s2)
+                  else lexClose cap s2
+                | [] => lexClose cap s2)
              | e => e)
           | e => e
 end
